@@ -15,7 +15,7 @@ func init() { register("C08", c08) }
 func c08(c *Ctx) {
 	r := c.R
 	r.Explanation = "Partial: structural necessary conditions for 'never panics / never stays blocked although a successor exists'. (S1) every dereference of the batch pointer returned by getUnlocked is guarded by its ok result (a deleted batch yields nil, and deletion can happen whenever the lock is not held); (S2) condition-variable discipline: Wait sits in a loop that re-evaluates the predicate, is executed with messagesMu held in write mode, the cancellation test precedes it, Add broadcasts after a successful write and InterruptGetNext broadcasts under the lock; (S3) cache coherence: every rewrite or deletion of a stored batch evicts its cache entry in the same critical section, and only found batches are cached; (S4) lock hygiene in the one file the project's textual lock test whitelists: every return releases what it acquired, no read-to-write upgrade. Correctness of GetNext under all interleavings is a schedule property and is not decided."
-	r.Rules = []string{"C08.S1 checked look-ups", "C08.S2 condition-variable discipline", "C08.S3 cache coherence", "C08.S4 lock hygiene", "C08.S5 tail re-pointing", "C08.S6 error and iterator discipline", "C08.S7 keys", "C08.S8 Add links and stores", "C08.S9 look-up results and fall-backs"}
+	r.Rules = []string{"C08.S1 checked look-ups", "C08.S2 condition-variable discipline", "C08.S3 cache coherence", "C08.S4 lock hygiene", "C08.S5 tail re-pointing", "C08.S6 error and iterator discipline", "C08.S7 keys", "C08.S8 Add links and stores", "C08.S9 look-up results and fall-backs", "C08.S10 decisive errors stay decisive"}
 
 	gu := c.MustFunc("outputstream.(*OutputStream).getUnlocked")
 	if gu == nil {
@@ -701,6 +701,7 @@ func c08(c *Ctx) {
 	c.c08Keys(methods)
 	c.c08Add()
 	c.c08Lookups()
+	c.errorDispositions("C08.S10", []string{"outputstream"}, nil, "Add / Delete report success although the store was not changed")
 	// ---------- S6 error and iterator discipline of the package
 	{
 		nErr, nPos := 0, 0
